@@ -573,19 +573,86 @@ def r_reg_class(P, B, rep):
             rep.undecided('R06.4', 'parse.c:primary:reg-class/%s' % tag, 'the answer of __builtin_reg_class is not a single constant (%r)' % (nums,), where=where); continue
         got = next(iter(nums))[0]
         seen += 1
-        if want is None:
-            # a two-eightbyte or mixed aggregate the caller passes in registers: none of the three walkers fetches it correctly;
-            # only "memory" is certainly wrong when registers are available
-            ok = False
-            msg = ('va_arg of a %s aggregate (%s) uses walker %r; the caller passes it in registers (classes %s) and stdarg.h has no walker that reassembles an aggregate from the '
-                   'register save area: the variadic callee reads it from the wrong place' % (tn, '+'.join(t for t, o in STRUCTS[tn][2]), got, cls))
-        else:
-            ok = got == want
-            msg = ('__builtin_reg_class(%s) is %r; the psABI class of the type is %s, so va_arg must use walker %d (0 INTEGER save area, 1 SSE save area, 2 overflow area): '
-                   'the variadic callee looks for the argument where the caller did not put it' % (tn, got, '/'.join(cls), want))
-        rep.ob('R06.4', 'parse.c:primary:reg-class/%s' % tag, ok, msg, where=where)
+        bad = _va_arg_end_to_end(P, tn, cls, got)
+        if isinstance(bad, str) and bad.startswith('undecided:'):
+            rep.undecided('R06.4', 'parse.c:primary:reg-class/%s' % tag, bad[10:], where=where); continue
+        rep.ob('R06.4', 'parse.c:primary:reg-class/%s' % tag, bad is None,
+               'va_arg(ap, %s) with __builtin_reg_class = %r: %s (the caller passes the type as %s; psABI 3.5.7)' % (tn if tn not in STRUCTS else 'struct{%s}' % ','.join(t for t, o in STRUCTS[tn][2]), got, bad, '/'.join(cls)), where=where)
     if seen < 12:
         rep.undecided('R06.4', 'parse.c:primary:reg-class', 'only %d types could be evaluated' % seen, where=where)
+
+
+_VA_CACHE = {}
+
+
+def _va_arg_end_to_end(P, tn, cls, klass):
+    """evaluate the header's va_arg(ap, T) (macro expanded, walkers interpreted by sa/lib_minic.py) with __builtin_reg_class(T) = klass on a grid
+    of va_list states and a register save area / overflow area filled with distinct bytes; compare the bytes of the fetched object and the
+    updated va_list with the va_arg algorithm of psABI 3.5.7. Returns None, a description of the first difference, or 'undecided:...'"""
+    from ..lib_minic import parse_functions, parse_macros, expand, tokenize, Parser, Eval, Cell, NotInSubset
+    if 'hdr' not in _VA_CACHE:
+        txt = open(P.header('include/stdarg.h')).read()
+        try:
+            _VA_CACHE['hdr'] = (parse_functions(txt, typenames=('__va_elem',)), parse_macros(txt))
+        except NotInSubset as e:
+            _VA_CACHE['hdr'] = e
+    if isinstance(_VA_CACHE['hdr'], Exception):
+        return 'undecided:stdarg.h is outside the evaluated C subset: %s' % _VA_CACHE['hdr']
+    fns, macros = _VA_CACHE['hdr']
+    if 'va_arg' not in macros:
+        return 'undecided:va_arg is not a macro of stdarg.h'
+    size = size_of(tn)
+    align = 16 if tn == 'ldouble' else (STRUCTS[tn][1] if tn in STRUCTS else size)
+    up = lambda n, a: (n + a - 1) // a * a
+    R, OV = 0x5000, 0x7000
+    try:
+        toks = expand(tokenize('va_arg(AP, TY)'), macros)
+        expr = Parser(toks + [('p', ';')], typenames=('TY', '__va_elem')).expr()
+    except NotInSubset as e:
+        return 'undecided:va_arg expands to something outside the evaluated C subset: %s' % e
+    ngp = cls.count('INTEGER'); nfp = cls.count('SSE')
+    in_mem = cls in (['MEMORY'], ['X87'])
+    for gp in range(0, 56, 8):
+        for fp in range(48, 192, 16):
+            for ov in (OV, OV + 8):
+                ev = Eval(fns, builtins={'__builtin_reg_class': lambda w: klass, 'sizeof': lambda w: size, '_Alignof': lambda w: align})
+                ev.lvalues = True
+                for a in range(0, 176):
+                    ev.mem[R + a] = (a * 7 + 3) & 0xff
+                for a in range(0, 64):
+                    ev.mem[OV + a] = (a * 5 + 0x80) & 0xff
+                st = {'gp_offset': gp, 'fp_offset': fp, 'overflow_arg_area': ov, 'reg_save_area': R}
+                want_st = dict(st)
+                # ---- psABI 3.5.7
+                if in_mem or gp + 8 * ngp > 48 or fp + 16 * nfp > 176:
+                    a0 = up(ov, 16) if align > 8 else ov
+                    want = [ev.mem.get(a0 + i, 0) for i in range(size)]
+                    want_st['overflow_arg_area'] = up(a0 + size, 8)
+                else:
+                    want = []
+                    g, f = gp, fp
+                    for k, c in enumerate(cls):
+                        src = R + (g if c == 'INTEGER' else f)
+                        if c == 'INTEGER':
+                            g += 8
+                        else:
+                            f += 16
+                        want += [ev.mem.get(src + j, 0) for j in range(min(8, size - 8 * k))]
+                    want_st['gp_offset'], want_st['fp_offset'] = g, f
+                try:
+                    res = ev.ev(expr, {'AP': Cell(st, 'ap')})
+                except NotInSubset as e:
+                    return 'undecided:va_arg / its walker is outside the evaluated C subset: %s' % e
+                if not (isinstance(res, tuple) and res[0] == 'lvalue'):
+                    return 'undecided:va_arg does not evaluate to an object (%r)' % (res,)
+                x = res[1]
+                got_bytes = [ev.load_byte(x, i) for i in range(size)]
+                if got_bytes != want or st != want_st:
+                    d = ', '.join('%s %#x (psABI %#x)' % (k, st[k], want_st[k]) for k in st if st[k] != want_st[k])
+                    where_ = ('the register save area' if not (in_mem or gp + 8 * ngp > 48 or fp + 16 * nfp > 176) else 'the overflow area')
+                    return ('at gp_offset=%d fp_offset=%d the object must be taken from %s; the fetched bytes %s%s'
+                            % (gp, fp, where_, 'are right' if got_bytes == want else 'are not the argument\'s bytes', (' and the va_list is left with ' + d) if d else ''))
+    return None
 
 
 def r_va_walkers(P, rep):
